@@ -310,6 +310,10 @@ def main():
                     if kf:
                         known.append((kf, u, pr))
                         pu['obligations'] -= 1; pu['known_finding_obligations'] = pu.get('known_finding_obligations', 0) + 1   # reported separately, neither discharged nor counted as proved
+                    elif u.get('on_fail') == 'undecided':
+                        # the unit proves a statement STRONGER than this property (e.g. position-wise order where the property only asks
+                        # for exactly-once): a failed proof there leaves this property undecided, it is not a violation of it
+                        undecided.append((u, dict(r, reason='proof of a stronger statement failed (%s): %s' % (u.get('on_fail_note', 'see unit note'), obligation_name(prop, u, pr)[:200]))))
                     else: violations.append((u, r, pr))
                 elif pr['status'] == 'UNKNOWN' and any(x['status'] == 'FAILURE' and classify(u, x) != 'sentinel' for x in r['results']):
                     pass      # cbmc leaves obligations behind a failed one undecided; the failure itself is reported
